@@ -323,6 +323,24 @@ def analyse(ctx, prop, jobs, limit, pen, tag, max_diag_qubits):
             if key in seen:
                 violate("C15", "two different bitstrings decode to the same fully scheduled result", [seen[key], bs])
             seen[key] = bs
+    # ---- copies of the used encoder (deepcopy / pickle round trip, as when an encoder travels to a worker process) are encoders of the same instance (C15)
+    if n <= 8 and (len(jobs) + limit) % 2 == 0:
+        import copy
+        import pickle
+
+        for how, mk in (("deepcopy", copy.deepcopy), ("pickle", lambda e: pickle.loads(pickle.dumps(e)))):
+            try:
+                enc2 = mk(enc)
+                n2 = enc2.n_qubits
+                w2 = enc2.get_problem_hamiltonian().num_qubits
+                same = all(decode_impl(enc2, inst, bitstring(i, n)) == decoded[i] for i in range(2**n)) if n2 == n else None
+            except Exception as e:  # noqa: BLE001
+                violate("C15", f"a {how} copy of a used encoder does not report / build / decode", repr(e)[:100])
+                continue
+            ctx.dist["encoder-copy:" + how] += 1
+            if n2 != nq_expected or w2 != n2 or same is not True:
+                violate("C15", f"a {how} copy of a used encoder reports another qubit count, builds a Hamiltonian of another width or decodes differently",
+                        {"n_qubits": n2, "expected": nq_expected, "hamiltonian_width": w2, "decodes_like_original": same})
     # ---- completeness (C15) and the optimum (C02): independent enumeration
     feas = feasible_schedules(jobs, limit) if sum(len(j) for j in jobs) <= 6 and limit <= 8 else None
     if feas is not None:
